@@ -66,16 +66,29 @@ Judge(checks) ==      \* checks: sequence of <<name, bool>>
     ELSE (\A i \in 1..Len(failed) : Viol(failed[i][1])) /\ bad' = bad + 1
 HasField(r, f) == f \in DOMAIN r
 
+\* the number of states the grid reports = product of the lengths of its axes, checked through its residues modulo three
+\* primes below 2^15 (so that every product stays below 2^31)
+Primes == <<32749, 32719, 32717>>
+RECURSIVE ProdMod(_, _, _)
+ProdMod(sizes, k, p) == IF k = 0 THEN 1 ELSE (ProdMod(sizes, k - 1, p) * (sizes[k] % p)) % p
+CountOK(sizes, cnt) == \A i \in 1..3 : cnt[i] = ProdMod(sizes, Len(sizes), Primes[i])
+GridCountOK(r) == ~HasField(r, "cnt") \/ CountOK([d \in 1..r.dim |-> Len(r.axes[d])], r.cnt)
+CountStep ==
+    /\ More /\ E.e = "Count"
+    /\ Judge(<< <<"NumberOfPoints", CountOK(E.sizes, E.cnt)>> >>)
+    /\ ln' = ln + 1 /\ UNCHANGED <<tid, fin, cur>>
+
 ConstructStep ==
     /\ More /\ E.e = "Construct"
-    /\ Judge(<< <<"WellFormed", WellFormed(E) /\ NeighbourHelpers(E)>>,
+    /\ Judge(<< <<"WellFormed", WellFormed(E) /\ NeighbourHelpers(E)>>, <<"NumberOfPoints", GridCountOK(E)>>,
                 <<"TailProbability", ~HasField(E, "tailq") \/ TailOK(E)>>,
                 <<"StepProbability", ~HasField(E, "stepq") \/ StepOK(E)>> >>)
     /\ cur' = E /\ ln' = ln + 1 /\ UNCHANGED <<tid, fin>>
 
 RefineStep ==
     /\ More /\ E.e = "Refine" /\ cur # <<>>
-    /\ Judge(<< <<"WellFormed", WellFormed(E) /\ NeighbourHelpers(E)>>, <<"Nesting", Nested(cur, E)>> >>)
+    /\ Judge(<< <<"WellFormed", WellFormed(E) /\ NeighbourHelpers(E)>>, <<"NumberOfPoints", GridCountOK(E)>>,
+                <<"Nesting", Nested(cur, E)>> >>)
     /\ cur' = E /\ ln' = ln + 1 /\ UNCHANGED <<tid, fin>>
 
 TimeStep ==
@@ -99,6 +112,6 @@ Finish ==
     /\ IF bad = 0 THEN PrintT(<<"ACCEPT", Id>>) ELSE TRUE
     /\ fin' = TRUE /\ UNCHANGED <<tid, ln, bad, cur>>
 
-TraceNext == ConstructStep \/ RefineStep \/ TimeStep \/ TimeRefused \/ TimeAccepted \/ RaiseStep \/ Finish
+TraceNext == ConstructStep \/ RefineStep \/ CountStep \/ TimeStep \/ TimeRefused \/ TimeAccepted \/ RaiseStep \/ Finish
 TraceSpec == TraceInit /\ [][TraceNext]_tvars
 =============================================================================
